@@ -372,6 +372,12 @@ def run(prog, chk):
         raise Broken("only %d storage-derived attribute stores found" % n6)
 
 
+    r7 = chk.rule("R7-copy-field-correspondence", "where a stored copy of a value is made, each duplicated string goes to the field it "
+                  "was read from (keys keep their original spelling, numbers their digit strings)", primary=False, floor=5)
+    if memrules.dup_field_correspondence(prog, r7) < 5:
+        raise Broken("fewer than 5 duplicated-field stores found")
+
+
 READER_MACROS = ("DESERIALIZE", "DESERIALIZE_USTRING", "DESERIALIZE_QUOTED_FLAG", "GET_VALUE_PROPS", "GET_COLUMN_STRING",
                  "GET_COLUMN_BYTESTRING")
 
